@@ -39,9 +39,15 @@ MANIFEST = {
             'the forms OnClauseSpec handles, policies expression or non-negative integer / bool, only declared string '
             'keys, name / base / version present ...: *_accept_shape, one theorem per class); a non-string key below '
             'patternProperties is a rejection; a schema is the conjunction of its keywords, allOf / anyOf / oneOf '
-            'facts; a task named `version` is accepted but never instantiated (tasks_all_instantiated_full_fails, '
-            'replayed; _partial for every other name). Schema validation is total by construction (structural '
-            'recursion, no $ref, the TypeError of a non-string key is part of the result). Hang-freedom, the '
+            'facts; every task / workbook member / list member of an accepted definition is instantiated '
+            '(tasks_all_instantiated after repo patch 27, section_members_instantiated, list_members_instantiated). '
+            'Constructor level (Props.C14Ctor): the modelled __init__ + validate_schema + validate_semantics of '
+            'RetrySpec, PoliciesSpec, PublishSpec, OnClauseSpec, TaskDefaultsSpec, TaskSpec (direct/reverse), '
+            'WorkflowSpec and WorkflowListSpec, in which every projection (data[k], .get on a non-dict, len, iteration, '
+            'item assignment, [0], regex on a non-string) can get stuck, return a specification or a definition error '
+            'for every value and every oracle of the regular expressions / expression grammars (constructor_total), '
+            'each projection being justified by an *_accept_shape fact. Schema validation is total by construction '
+            '(structural recursion, no $ref, the TypeError of a non-string key is part of the result). Hang-freedom, the '
             'expression / YAML / regex engines and re-read stability are decided by the monitor on the real code.',
     'note': 'totality of the whole entry points and hangs are monitor-only (time limit, sampled inputs); PyYAML, re, '
             'yaql, jinja2, sqlite are exercised but not modelled; jsonschema is modelled for the keyword subset that '
@@ -59,8 +65,11 @@ RULE = ('documents = bundled YAML + generated workflow lists/workbooks/action li
         'those documents (recorded), every node of every parsed document against the classes of its role (raw and '
         'with the name/version/type injections), random node x class pairs, ~220 hand-written corner values x every '
         'class; compared: accept/reject, TypeError reached, multiset of (path, failing keyword) of all errors; '
-        'non-trivial = rejected or a dict; distinct = distinct (class, value). schema-ctor: accepted values through '
-        'the real constructor + validate_semantics. schema-re: every pattern x harvested keys/strings, alphabet '
+        'non-trivial = rejected or a dict; distinct = distinct (class, value). ctor: the same pairs for the 10 classes '
+        'with a constructor model, accepted by the schema or not: real instantiate_spec(validate=True) vs the Lean '
+        'constructor with oracle tables computed by the real _parse_cmd_and_input / _get_with_items_as_dict / '
+        'expr.validate; compared: specification / definition error / internal error and the getters of the '
+        'specification; non-trivial = a specification was built or the schema accepted the value. schema-re: every pattern x harvested keys/strings, alphabet '
         'soups, non-ASCII word/space characters; non-trivial = match. schema-eq: node pairs; non-trivial = equal.')
 TRUSTED = [
     'totality ("never an internal error") and hang-freedom are NOT theorems: they are evaluated by the monitor on the '
@@ -81,6 +90,11 @@ TRUSTED = [
     '(the sorted fast path of _utils.uniq differs only for lists of numbers containing nan: compared on the verdict '
     'only); the order of the errors yielded before a TypeError by additionalProperties-with-schema follows a python '
     'set and is not compared; YAML values of no JSON type (date, bytes, set) are opaque',
+    'constructor model (Model/SchemaCtor.lean): the regular expressions CMD_PTRN / PARAMS_PTRN / WITH_ITEMS_PTRN with '
+    'json.loads, the expression grammars and is_uuid_like are an oracle (theorems hold for every oracle; the stream '
+    'fills it from the real functions); inline parameter values are assumed not to be dicts (PARAMS_PTRN cannot '
+    'produce one); the graph checks of validate_semantics are Model/Lang.lean, not part of ctorWorkflow; error '
+    'classes are compared as definition error / internal error, not by exception type',
     'harness seams of the schema stream: a recorder around BaseSpec.validate_schema and parser.parse_yaml (off during '
     'the scaling probes); while the stream itself calls validate_schema on bare spec objects str(ValidationError) is '
     'the bare message (the pretty-printed text costs 17 ms per rejection; first 150 rejections use the real __str__)',
